@@ -1,7 +1,9 @@
 """C12: no query can crash, hang or leak work on the read side.
 ReadPipeline.tla (goroutine pipeline with unbuffered channels: scan, map/limit/fix stages, exporter, handler; database
 failure at any row, context cancellation) is model-checked by TLC for termination of every goroutine. TLC enumerates the
-cases (endpoint x query class x parameter x parameter class x database fault) from the driver's schema; each case plus
+cases (endpoint x query class x parameter x parameter class x database fault, and for the endpoints with start/end/step
+the product of window alignment classes: start and end relative to the range grid and to the data x step relative to the
+range) from the driver's schema; each case plus
 seeded random/mutated query strings is sent to the REAL reader router (over fakesql/chsql with preloaded data and scripted
 database faults, optional client abort) in a child process with a goroutine census after the request."""
 import json
@@ -21,10 +23,21 @@ AllQ == %(allq)s        \\* <<endpoint, query class>>
 GoodQ == %(goodq)s      \\* <<endpoint, good query class>>
 Params == %(params)s    \\* <<endpoint, param, class>>
 Faults == %(faults)s
+\* window alignment: where start and end lie relative to the range grid and to the data, step relative to the range
+WinEP == %(winep)s
+WinStart == %(winstart)s
+WinEnd == %(winend)s
+WinStep == %(winstep)s
 VARIABLE c
 Init == c \\in   { <<q[1], q[2], "", "valid", "none">> : q \\in AllQ }
           \\cup UNION { { <<q[1], q[2], p[2], p[3], "none">> : p \\in {x \\in Params : x[1] = q[1] /\\ x[3] # "valid"} } : q \\in GoodQ }
           \\cup UNION { { <<q[1], q[2], "", "valid", f>> : f \\in Faults \\ {"none"} } : q \\in GoodQ }
+          \\* a parameter that is absent / empty / zero can select another code path of the handler (another service call, another
+          \\* statement): every database fault on those paths too
+          \\cup UNION { { <<q[1], q[2], p[2], p[3], f>> : p \\in {x \\in Params : x[1] = q[1] /\\ x[3] \\in {"absent", "empty", "zero"}},
+                                                          f \\in {"query_err", "row_err_first"} \\cap Faults } : q \\in GoodQ }
+          \\cup UNION { { <<q[1], q[2], "@window", s \\o "/" \\o e \\o "/" \\o t, "none">> : s \\in WinStart, e \\in WinEnd, t \\in WinStep }
+                        : q \\in {g \\in GoodQ : g[1] \\in WinEP} }
 Next == UNCHANGED c
 Spec == Init /\\ [][Next]_c
 Export == PrintT(<<"CASE", ToJson([endpoint |-> c[1], query |-> c[2], param |-> c[3], class |-> c[4], fault |-> c[5]])>>)
@@ -71,7 +84,10 @@ def enumerate_cases(binp, sd):
         for p, cls in d['params'].items():
             for c in cls:
                 params.add((ep, p, c))
-    mod = CASES_TLA % {'allq': tset(allq), 'goodq': tset(goodq), 'params': tset(params), 'faults': '{' + ', '.join('"%s"' % f for f in s['faults']) + '}'}
+    sset = lambda xs: '{' + ', '.join('"%s"' % x for x in xs) + '}'
+    win = s['window']
+    mod = CASES_TLA % {'allq': tset(allq), 'goodq': tset(goodq), 'params': tset(params), 'faults': sset(s['faults']),
+                       'winep': sset(win['endpoints']), 'winstart': sset(win['start']), 'winend': sset(win['end']), 'winstep': sset(win['step'])}
     open(os.path.join(sd, 'MC_ReadCases.tla'), 'w').write(mod)
     open(os.path.join(sd, 'MC_ReadCases.cfg'), 'w').write('SPECIFICATION Spec\nCONSTRAINT Export\nCHECK_DEADLOCK FALSE\n')
     res = vlib.tlc(sd, 'MC_ReadCases.tla', 'MC_ReadCases.cfg', timeout=600)
@@ -96,8 +112,21 @@ def run(tier):
             keep = []
             goodsel = {}
             for c in cases:
+                if c['param'] != '' and c['fault'] != 'none':
+                    # parameter class x fault: the first good query of every endpoint always, a seeded third of the others
+                    k2 = ('pf', c['endpoint'])
+                    if k2 not in goodsel:
+                        goodsel[k2] = c['query']
+                    if goodsel[k2] == c['query'] or rnd.random() < 0.33:
+                        keep.append(c)
+                    continue
                 if c['param'] == '' or c['fault'] != 'none':
                     keep.append(c)
+                    continue
+                if c['param'] == '@window':
+                    # the whole window product for one metric query per language, a seeded fifth of it for the other queries
+                    if c['query'] in ('metric_agg', 'rate', 'sel') or rnd.random() < 0.2:
+                        keep.append(c)
                     continue
                 key = (c['endpoint'], c['query'])
                 if key not in goodsel:
